@@ -13,6 +13,7 @@ import (
 func TestMain(m *testing.M) {
 	log.SetOutput(io.Discard)
 	code := m.Run()
+	stopPeers()
 	ev.Flush()
 	os.Exit(code)
 }
